@@ -452,6 +452,12 @@ class C06Monitor(Monitor):
 
     def quiescent(self, f):
         now = f.env.now
+        for n in f.sources:
+            o, st = f.dev[n], self.src[n]
+            if o._output is None and o._part_generator._generated_part_counter == st['gen'] and now - st['t0'] >= st['eff'] \
+                    and st['left'] == o.produced_parts and f.step_no > 0:
+                f.fail('C06.d', f'source {n} has produced nothing by {now} although its cycle started at {st["t0"]} with '
+                       f'cycle time {st["eff"]}', 'source_late')
         for n in self.timed:
             c = self.cur.get(n)
             if c is None or not f.dev[n].is_operational():
@@ -478,6 +484,7 @@ class C13Monitor(Monitor):
         self.wo_only = {n for n in f.procs if n not in touched}
         self.fail_type = f.lib.EventType.FAIL
         self.restored_holding = {}
+        self.fin2_seen = 0
 
     def before_step(self, f):
         self.slots_before = {n: (f.dev[n]._part, f.dev[n]._output) for n in f.procs}
@@ -584,6 +591,16 @@ class C13Monitor(Monitor):
                 if (st - fi > 0) != is_down:
                     f.fail('C13.f', f'{n} has {st - fi} work orders in progress but is_operational() is '
                            f'{not is_down}', 'wo_down')
+        # (e) finish-processing callbacks: each once per finished part, in registration order
+        while self.fin2_seen < len(f.fin_order_log):
+            n, n_first, part = f.fin_order_log[self.fin2_seen]
+            k = self.fin2_seen
+            self.fin2_seen += 1
+            if n_first != k + 1 or f.finish_log[k][0] != n or f.finish_log[k][1] is not part:
+                f.fail('C13.e', f'finish-processing callbacks of {n} did not run once each in registration order for '
+                       f'{getattr(part, "name", part)}', 'finish_callbacks')
+        if len(f.finish_log) != len(f.fin_order_log):
+            f.fail('C13.e', f'finish-processing callbacks ran {len(f.finish_log)} / {len(f.fin_order_log)} times', 'finish_callbacks')
         self.ev(f, 'C13', len(f.procs))
 
     def quiescent(self, f):
@@ -1230,8 +1247,6 @@ class C01FloorMonitor(Monitor):
         q = list(f.env._events)
         self.snap = q
         self.min_key = min((e.time, -e.event_type) for e in q)
-        if sum(1 for e in q if (e.time, -e.event_type) == self.min_key) > 1:
-            f.stats['tie_groups'] += 1
         self.prev_now = f.env.now
 
     def after_step(self, f, e):
